@@ -249,6 +249,38 @@ def run(res):
                           {"name": n, "src": j["src"], "received": mo})
             found_input = True
     n_ctx += n_ident
+    # resolved script paths inside l-value paths
+    p3 = harness_run(["pathctx", res.tier, res.seed])
+    for j in [json.loads(l) for l in p3.stdout.decode("utf8").split("\n") if l]:
+        rr = node_jobs([{"op": "run", "id": 0, "bundle": j["bundle"], "path": j["path"], "log": True, "steps": [{"create": {"$o": {}}}]}])[0]
+        if rr.get("error") or j.get("max_level", 0) >= 2:
+            res.violation("the script-path template does not compile / run: %s" % (rr.get("error") or "diagnostic level %d" % j["max_level"]), {"src": j["src"]})
+            found_input = True
+            continue
+        got = {}
+        for e in rr["logs"][0]:
+            if e[0] == "v" and len(e) > 7:
+                got[e[1]] = e[7]
+            elif e[0] == "p" and len(e) > 3:
+                got[e[1]] = e[3]
+        for name, want in j["expect"].items():
+            n_ctx += 1
+            g = got.get(name)
+            g = g.get("$a", g) if isinstance(g, dict) else g
+            if g != want:
+                res.violation("resolved script path: the l-value path of %r arrives as %r instead of %r" % (name, g, want),
+                              {"src": j["src"], "binding": name, "received": g, "expected": want})
+                found_input = True
+    # attribute / event / mark / dataset / slot-value NAMES: every family x name spelling reaches the runtime under the name
+    # the family's rule gives (camel-cased or verbatim; the attribute-family model of C04, here for the constant itself)
+    from props.c04 import attr_routes
+    n_routes, f_routes = attr_routes(res)
+    if f_routes:
+        found_input = True
+        for v in res.violations:
+            if v.get("what", "").startswith("attribute ") and "reaches the runtime as" in v.get("what", ""):
+                v["what"] = "name constant: " + v["what"]
+    n_ctx += n_routes
     if len(ctx_seen) < 20:
         res.violation("only %d embedding contexts were observed (harness/pipeline mismatch): %s" % (len(ctx_seen), sorted(ctx_seen)),
                       {"contexts": sorted(ctx_seen)}, no_input=True)
